@@ -44,9 +44,9 @@ type Plugin struct {
 	specs func(path string) *ActionSpec
 }
 
-func (p *Plugin) Name() string { return p.name }
+func (p *Plugin) Name() string  { return p.name }
 func (p *Plugin) IsCheck() bool { return p.check }
-func (p *Plugin) Init() error  { return nil }
+func (p *Plugin) Init() error   { return nil }
 
 func (p *Plugin) Request() any {
 	if p.ptr {
